@@ -17,7 +17,7 @@ GROUPS = ["names", "split", "affix", "trimlead"]
 
 
 def _jobs(tier):
-    per = 50000 if tier == "quick" else 1250000
+    per = 50000 if tier == "quick" else 400000
     reps = 1 if tier == "quick" else 1
     return [(g, s, per) for g in GROUPS for s in range(4)]
 
@@ -27,7 +27,7 @@ def plan(tier):
 
 
 def rule(tier):
-    return ("each job = one strutils_check process for one helper group and PRNG stream (quick 4x50k, thorough 4x1.25M inputs per "
+    return ("each job = one strutils_check process for one helper group and PRNG stream (quick 4x50k, thorough 4x400k inputs per "
             "group); evaluations = oracle comparisons; non-trivial = names: the two names differ and have no anonymous part or are "
             "renumbered anonymous names; split: >=2 fields; affix: non-empty proper-length affix; trimlead: >=1 leading repetition")
 
